@@ -29,6 +29,72 @@ CHECKS.update({
         text='Exhaustive over start, stop in -4..6, step in -3..3 and no step, literal and symbolic bounds: get_pyrange must equal DoSeq; num_iterations, normalized, iteration_number, iteration_index (exported expression trees, evaluated by FExpr in TLC) must agree with DoSeq on every non-empty loop.',
         note='Consumers (unrolling, constant propagation) are checked by behaviour in C31/C32.'),
 })
+CHECKS.update({
+    'C01': dict(
+        technique='TLA+ MiniFortran reference machine (FMachine.tla) evaluated by TLC on generated programs x inputs; observed = stdout of gfortran running Loki-regenerated code; gfortran pre-flight of the machine on the original text',
+        text='Seeded derivations of MiniFortran kernels (scalars, 1-d/2-d arrays with arbitrary lower bounds, DO/DO WHILE/IF/SELECT CASE/EXIT/CYCLE, ASSOCIATE, array sections, module subroutine and function calls, PRINT) are rendered, passed through Sourcefile.from_source(...).to_fortran(), compiled and run on several inputs; Trace_FMachine (TLC) accepts a run iff its output equals Run(program, input).out of the reference machine. The same machine must agree with gfortran on the ORIGINAL text, otherwise the case is dropped (oracle disagreement > 3% = machinery error).',
+        note='Derived types, WHERE, OPEN and labelled DO are not generated yet. The harness-owned PROGRAM driver is not passed through Loki. Real values are dyadic so that comparison is exact. Trusted: TLC, FMachine/FExpr, renderer and output parser in lib_fm.py, gfortran.'),
+    'C07': dict(
+        technique='TLA+ reference parser FParse + reference semantics FExpr: TLC compares the value of parse_expr(s) with the value of the reference parse of the same token string',
+        text='All operator chains of length <= 3 over + - * / ** with optional leading minus and bracketed variants, relational/logical combinations, plus seeded grammar derivations with kinded literals, intrinsic calls, subscripts and components; Trace_ExprEquiv (TLC) evaluates both readings on 45+45 valuations. gfortran pre-flight of FParse+FExpr on a sample.',
+        note='Array elements, unknown functions and components are uninterpreted functions of their evaluated arguments. One known finding (mul/div chain associativity), recognised counterfactually by re-parsing the text with explicit brackets.'),
+    'C05': dict(
+        technique='TLA+ model of the sanitiser contract (Sanitise.tla: lexical regions x trigger placements, what may change) model-checked by TLC + exhaustive placements replayed through the real frontend and validated by Trace_Sanitise',
+        text='Every trigger pattern is placed in every lexical region/position (≈260 sources x 2 entry points); string literal values, comments, identifiers and OPEN specifiers recorded from the IR and from fgen must equal what the spec predicts (only targeted constructs may change and must be restored).',
+        note='Many known findings: the sanitiser rules are applied to raw lines without lexical context. gfortran accepts the generated sources (pre-flight).'),
+    'C11': dict(
+        technique='TLA+ laws (ExprEq.tla: Symmetric, HashConsistent, CaseInsensitive, with the 1:n shortcut exemption) evaluated by TLC on the full eq/hash relation recorded from real nodes; node universe enumerated by TLC',
+        text='≈400 node descriptors of every kind (660 in thorough) are enumerated by the spec, built as real Loki nodes together with their case variants; the complete ordered-pair equality matrix and hash classes are recorded and Trace_ExprEq evaluates the three laws on every pair.',
+        note='Hash values are sent as small class indices. CaseVariant changes names only, never string-literal content.'),
+    'C13': dict(
+        technique='TLA+ state machine VarFactory (classification function + SetType/Clone/Rescope/Detach histories): TLC MC of all histories <= 3 (4 thorough), TLC-enumerated classification cross product and simulated behaviours replayed into real Variable objects, Trace_VarFactory validation',
+        text='The classification cross product (type recorded in scope x shape x dimensions x explicit type x parent x nesting) is exhaustive; histories of type updates/clones/rescopes are generated by TLC and replayed step by step with the class and reported type of every symbol compared.',
+        note='Cases the documentation does not decide (listed in harness/notes/C13.md) are not generated.'),
+    'C14': dict(
+        technique='TLA+ specification of the documented transformer contract (TreeRewrite.tla Apply/ApplyNested/ApplyMasked) model-checked on small trees; TLC-enumerated tree x mapping cases realised with real IR nodes and validated by Trace_TreeRewrite',
+        text='All small abstract trees x mappings (to None / node / tuple incl. self) x {Transformer, NestedTransformer, MaskedTransformer, NestedMaskedTransformer} x inplace are built from real IR node classes; the exported result tree, the original after the call and the rebuilt record must equal the spec result.',
+        note='Cases whose outcome is not specified (whether replacements are revisited) are constructed so that the answer cannot depend on it. Several known findings (NestedTransformer handles, empty SELECT CASE bodies, masked variants inside Associate).'),
+    'C15': dict(
+        technique='TLA+ definition of the finders (Finders.tla: pre-order match, greedy, unique / with_ir_node quotients) evaluated by TLC on independently exported trees and compared with the real finder results',
+        text='Generated IR trees and parsed snippets are exported by an independent structural walk; FindNodes / FindVariables / FindInlineCalls / FindScopes ... in all modes are run and Trace_Finders decides equality with the spec result per query.',
+        note='Known findings: PrintStmt.values and Enumeration.symbols are not traversed; with_ir_node on declarations.'),
+    'C16': dict(
+        technique='TLA+ state machine AttachDetach (attach/detach of pragmas, pragma regions, dataflow; context managers incl. exceptional exit) model-checked; generated routines x operation sequences replayed and validated by Trace_AttachDetach',
+        text='Routines with pragmas in usual and unusual placements (nested, unmatched, level-crossing regions) x nested context stacks, direct-call orders and random walks; an independent structural export with node identities and fgen text before/after must satisfy Balanced => unchanged.',
+        note='Dataflow sets left on pragma nodes after non-nested direct calls are outside the property (counted as information).'),
+    'C17': dict(
+        technique='TLA+ state machine CloneAlias (two copies, edit actions, invariants OtherCopyUnchanged / SymbolsResolveInOwnChain / ParentScopeOfOriginalUnchanged) model-checked; TLC-generated histories replayed on real units, Trace_CloneAlias validation',
+        text='All histories of <= 3 edit events (plus sampled longer ones) on subroutines with members, functions, modules with types/imports and source files; after each step both copies are projected (text, symbol scope ownership, parent symbol table, sibling call links).',
+        note='Two known findings (clone registers itself in the original parent scope; cloned module variables keep the original TypeDef).'),
+    'C18': dict(
+        technique='TLA+ clauses PickleRT (RoundTripCompletes, Equal, SameText, ScopesReattached) evaluated by TLC on projections recorded from pickle round trips over a feature grid of generated units',
+        text='210 unit-kind x feature combinations (members, typedefs, imports, enriched calls, casts ...) are pickled and unpickled; equality, hash, generated text and per-symbol scope ownership/types are projected and judged by Trace_PickleRT.',
+        note='Honest scope note: the TLA+ side states the clauses; most discriminating power is in the projection and the feature grid. Two known findings.'),
+    'C19': dict(
+        technique='TLA+ state machine RegexDiscovery (parsed-class set, MakeComplete actions, Discovered = projection by the union of classes) model-checked over all request orders; TLC-generated abstract files rendered under layout variations, every incremental re-parse validated by Trace_RegexDiscovery',
+        text='Abstract files (units, nesting, imports with only/rename lists, typedefs with bindings, interfaces, calls incl. inline-IF and %-calls) are rendered with continuation lines, semicolons, decoy keywords in comments/strings, mixed case; all subsets and many orders (all 5040 in thorough) of parser-class requests are replayed; the FP frontend is a renderer cross-check.',
+        note='Known findings: request order matters for Sourcefile.make_complete, typedefs inside routines, bare END, module merge with internal procedures.'),
+    'C20': dict(
+        technique='TLA+ clause SrcLoc (recorded span and text must be the file text at those lines) evaluated by TLC on (node, lines, text) records from generated programs and repository sources, both frontends',
+        text='For every node with a Source (FP, REGEX, and REGEX followed by make_complete(FP)) the recorded line span and string are compared per line with the original file lines.',
+        note='Files needing the C preprocessor are skipped. Two known findings.'),
+    'C21': dict(
+        technique='TLA+ specification of the scheduler population (SchedPopulate: queue algorithm vs declarative PrunedClosure) model-checked exhaustively over small projects x config lattice; TLC-sampled and seeded projects rendered to Fortran, run through the real Scheduler and validated by Trace_Sched',
+        text='Abstract projects (modules, free procedures, calls, qualified/unqualified imports) and configurations (seeds, expand/ignore/block/disable with plain, scoped and pattern keys) are rendered with layout noise and handed to the real Scheduler with full_parse/enable_imports on and off; nodes, edges, kinds, files and ignored flags must equal the pruned closure computed by TLC. The hand-written expectations of the repository tests are the validation corpus of the spec rules.',
+        note='Typedef/binding/interface items are not modelled; projects stay inside the modelled fragment. One known finding (same procedure name in two modules of one file).'),
+    'C22': dict(
+        technique='TLA+ specification SchedProcess (Visit enabled iff selected and predecessors visited; any topological order accepted) model-checked; probe Transformation records real visits, Trace_SchedProcess validates once/only-selected/order/targets',
+        text='For the C21 projects a probe transformation with random manifests (item filters, reverse, file graph, process_ignored_items) records every transform_* call with role, mode and targets; TLC checks each selected item exactly once, no other, order consistent with the (reversed) dependency graph, file-graph order, and targets = non-blocked dependencies.',
+        note='Known findings on targets for unqualified imports / free procedures called from module procedures / overridden disable lists.'),
+    'C42': dict(
+        technique='TLA+ protocol model LintQueue model-checked over all interleavings (<= 4 files, <= 3 workers, parse failures); real parallel lint runs with jittered probe rule/handler recorded and validated by Trace_LintQueue',
+        text='Generated file sets (with planted violations and unparsable files) are linted with 1..8 workers under seed-derived delays; per-process sequence numbers and an append-only log give the event order; every log must be a behaviour of the model, every file is checked once and per-file reports/outputs equal the serial run.',
+        note='Real schedules are sampled; only the model is explored exhaustively.'),
+    'C44': dict(
+        technique='TLA+ protocol model JitBuild (main thread wait/submit, workers start/finish, link) model-checked with safety and liveness over all DAGs <= 4 objects; real Lib.build runs with a logging compiler wrapper validated by Trace_JitBuild',
+        text='Random module DAGs are built with 1..8 workers through a compiler wrapper that logs start/end (O_APPEND) and sleeps a seed-derived time; TLC checks each log: start after all providers finished, each object once, link after all, library equals the serial build; also rebuild and aliasing scenarios.',
+        note='One known finding (dependencies resolved by file stem, not by provided module). Real schedules are sampled.'),
+})
 NOT_APPLICABLE = {p: 'check not built yet (work in progress; see DESIGN.md build order)' for p in ALL if p not in CHECKS}
 for e in ENGINES:
     e['serves_properties'] = sorted(CHECKS)
